@@ -8,7 +8,7 @@ enum Kind
 {
   K_OUT_PLAIN = 0, K_OUT_REFUSED, K_OUT_BLACKHOLE, K_OUT_UNRESOLVABLE, K_OUT_DNS_SLOW, K_OUT_TLS_GARBAGE, K_OUT_TLS_EOF,
   K_OUT_TLS_SILENT, K_OUT_TLS_PEER, K_OUT_SELF_PLAIN, K_OUT_SELF_TLS, K_IN_PLAIN, K_IN_TLS_GARBAGE, K_IN_TLS_SILENT, K_IN_TLS_CLIENT, K_OUT_NOROUTE, K_OUT_EINVAL,
-  K_U_IN = 20, K_U_OUT, K_U_VIA, K_U_FAIL_RESOLVE, K_U_FAIL_VIA_NOLISTENER, K_U_FAIL_VIA_AF, K_U_ICMP, K_U_FAIL_CONNECT
+  K_U_IN = 20, K_U_OUT, K_U_VIA, K_U_FAIL_RESOLVE, K_U_FAIL_VIA_NOLISTENER, K_U_FAIL_VIA_AF, K_U_ICMP, K_U_FAIL_CONNECT, K_U_SHARED_PEER
 };
 inline bool isOutbound(int k) { return k < K_IN_PLAIN || k == K_OUT_NOROUTE || k == K_OUT_EINVAL || (k > K_U_IN && k <= K_U_FAIL_CONNECT); }
 enum End { E_APP = 0, E_FIN, E_RST, E_IDLE, E_BACKPRESSURE, E_STOP, E_SELF, E_RACE_FIN, E_RACE_RST, E_RACE_APP, E_RACE_COMPLETE, E_WSTALL };
@@ -327,8 +327,60 @@ struct Run : Hist
   }
 
   // ------------------------------------------------------------------------------ UDP
+  // several logical sessions to ONE remote ip:port on the same listener: an implicit accept from the peer and/or
+  // via-connects to it (the peer index maps the address to one of them; every one is a session of its own for the
+  // close accounting and the gauge)
+  void udpSharedPeerActor(Plan p)
+  {
+    vf::Rng r(p.seed, 3);
+    sleepMs(p.startMs);
+    if (stopping.load()) { countL("actors_not_started_before_stop"); return; }
+    uint16_t myPort = 0; int fd = udpSocket(&myPort);
+    if (fd < 0) return;
+    char junk[64]; memset(junk, 's', sizeof junk);
+    std::vector<uint64_t> sids;
+    int variant = int(r.below(3)); // 0: accept, via   1: via, via   2: accept, via, via
+    if (variant != 1)
+    {
+      if (p.cb) { std::lock_guard<std::mutex> g(mu); planByPort[myPort] = p.cb; }
+      uint64_t a = 0;
+      for (int t = 0; t < 12 && !a && !stopping.load(); t++) { udpSendTo(fd, l0port, junk, 1 + r.below(40)); a = sidOfPort(myPort, 250); }
+      if (a) sids.push_back(a);
+    }
+    int vias = variant == 0 ? 1 : 2;
+    for (int i = 0; i < vias && !stopping.load(); i++)
+    {
+      bool earlierOpen = false;
+      for (uint64_t e : sids) if (!isClosed(e)) earlierOpen = true;
+      uint64_t v = doConnect("127.0.0.1", myPort, TlsMode::None, T_UDP_VIA, nullptr, false, true, l0);
+      if (!v) break;
+      waitAnnOrClosed(v, 15000);
+      int ann, closes; sessState(v, ann, closes);
+      if (earlierOpen && ann) countL("via_to_peer_with_open_session");
+      sids.push_back(v);
+      if (r.chance(0.4)) sleepMs(double(r.below(5)));
+    }
+    if (sids.empty()) { countL("actors_without_session"); close(fd); return; }
+    for (uint64_t s : sids) { markPlan(s, p); if (r.chance(0.5)) actorRegs(s, p, r); }
+    if (p.peerData) for (int i = 0, n = int(r.range(1, 3)); i < n; i++) udpSendTo(fd, l0port, junk, 1 + r.below(60));
+    if (p.appData) for (uint64_t s : sids) T->send(s, junk, 1 + r.below(40));
+    sleepMs(p.midMs);
+    // close in a seeded order; the gauge is sampled inside every callback and compared with 0 after the last close
+    for (size_t i = sids.size(); i > 1; i--) std::swap(sids[i - 1], sids[r.below(i)]);
+    const char *origin = p.end == E_APP ? "app" : p.end == E_IDLE ? "idle-gc" : nullptr;
+    if (p.end == E_APP) for (uint64_t s : sids) { T->close(s); if (r.chance(0.5)) sleepMs(double(r.below(4))); }
+    if (origin) for (uint64_t s : sids) expectClose(s, origin);
+    if (origin && r.chance(0.5) && !stopping.load())
+    {
+      // the same remote address again after everything for it was closed: a fresh via session must be counted again
+      uint64_t v = doConnect("127.0.0.1", myPort, TlsMode::None, T_UDP_VIA, nullptr, false, true, l0);
+      if (v) { waitAnnOrClosed(v, 15000); markPlan(v, p); T->close(v); expectClose(v, "app"); countL("via_to_peer_again_after_all_closed"); }
+    }
+    close(fd);
+  }
   void udpActor(Plan p)
   {
+    if (p.kind == K_U_SHARED_PEER) { udpSharedPeerActor(p); return; }
     vf::Rng r(p.seed, 3);
     sleepMs(p.startMs);
     if (stopping.load()) { countL("actors_not_started_before_stop"); return; }
